@@ -275,6 +275,14 @@ def through_aux_data(ctx, g):
             if got != "TypeNameError":
                 ctx.add("oracle", "parse-differs-from-grammar", "%s with the type name %r is %s; the string is outside the grammar and must be rejected with TypeNameError"
                         % (nm, tn, got), {"type_name": tn, "entry_point": nm, "got": got})
+    # the same route on the model: a loaded table (Model/AuxTable.v `load`) read twice -- the lazy decode parses the type name
+    from common import model_batch, model_result, zs
+    reps = model_batch([[10, [], zs(tn), list(b"\x05\0\0\0\0\0\0\0"), [[0], [0]]] for tn in bad])
+    for tn, rep in zip(bad, reps):
+        got = [model_result(x) for x in rep] if isinstance(rep, list) else rep
+        if got != [("err", "TypeNameError"), ("err", "TypeNameError")]:
+            ctx.add("corr", "model-impl-differ", "the model's lazily loaded table with the type name %r is read as %r; the implementation raises TypeNameError at every access" % (tn, got),
+                    {"type_name": tn, "stream": "C15 type names through loaded tables"})
     for tn, raw, val in good:
         for via_file in (False, True):
             ctx.case("aux-route-good:%s:%s" % (tn, via_file), True)
